@@ -290,6 +290,7 @@ _OLD_CONTAINER = {"irregular": "f64-irregular", "ndarray": "f64-ndarray"}
 DYADIC_TICKS = (1.0, 0.5, 2.0 ** -6, 16.0, 2.0 ** -20, 2.0 ** 20, 2.0 ** -11, 2.0 ** 9)
 NO_OFFSET = (0, 0, 0)
 MAX_OFFSET_EXP = 30
+INT_MAX_SPREAD = 2.0 ** 30  # largest coordinate difference realised with an integer dtype (squares stay below 2^62)
 
 
 def offset_ticks(off):
@@ -364,7 +365,10 @@ def represent(rep, a_int, tick, role="grid"):
 def alternative_reps(call, G, sbs, tick, P=None, off=NO_OFFSET):
     """The non-float64 representations in which this instance can be realised exactly."""
     reps = []
-    if float(tick) == int(tick) and tick >= 1:
+    allpts = G if P is None else np.concatenate([G, P])
+    spread = float((allpts.max(axis=0) - allpts.min(axis=0)).max()) * tick if len(allpts) else 0.0
+    # integer dtype: the library squares coordinate DIFFERENCES in the input dtype, exact only below 2^31 per axis (int64)
+    if float(tick) == int(tick) and tick >= 1 and spread < INT_MAX_SPREAD:
         reps += ["i64-ndarray", "int-irregular"]
         if P is not None and call == "relocated_mesh_grid_from":
             reps.append("int-list")
@@ -840,6 +844,9 @@ def run(ctx):
         "1 / (2 n max(n r)) ticks (n border points, n r <= 16000 in the magnified lattice): e <= 30 for the enumerated small "
         "instances (border and points within a few ticks), e <= about 23..27 for the random larger ones; beyond that range even "
         "the unchanged float64 implementation cannot decide interior / outside exactly. float32 realisations are untranslated",
+        "integer-dtype realisations are limited to instances whose coordinate differences stay below 2^30 (in scaled units): the "
+        "unchanged library squares coordinate differences in the input dtype, which overflows int64 from about 3.0e9 (observed "
+        "with tick 2^20 and outliers 5000 ticks away: wrong nearest border point); float64 inputs have no such limit",
         "a plain Python list is used as a representation for mesh vertices only (the library fancy-indexes the data grid, "
         "which a list does not support on the unchanged tree); float32 realisations are restricted to small instances because "
         "float32 arithmetic inside the library cannot keep the exact interior / nearest-border decisions for larger coordinates",
